@@ -151,6 +151,36 @@ func planC12(tier string, root *simcore.RNG) *plan {
 			}
 		}
 	}
+	// part 1b: a failing sink next to healthy renders in the same process
+	// (they share the worker pool and the evaluation channel)
+	npairs := 40
+	if thorough {
+		npairs = 600
+	}
+	for i := 0; i < npairs; i++ {
+		r := root.Fork()
+		a := Job{ID: 1, Kind: "mcu", Sink: pick(r, []string{"stl", "3mf"}), Model: pick(r, model3Names), Cells: 7 + r.Intn(6), EvalMod: 16,
+			Fault: Fault{Kind: pick(r, []string{"devfull", "nodir", "isdir", "vanish"})}}
+		b := Job{ID: 2, Kind: pick(r, []string{"mcu", "mcu", "mco"}), Sink: pick(r, []string{"tri", "stl", "3mf"}), Model: pick(r, model3Names), Cells: 7 + r.Intn(6), EvalMod: 16}
+		grp := []Job{a, b}
+		if r.Intn(3) == 0 {
+			n := 200 + r.Intn(600)
+			grp = append(grp, Job{ID: 3, Kind: "script2", Sink: pick(r, []string{"dxf", "svg"}), N: n, Batches: genPartition(r, n, 1+r.Intn(2), "small"), Coords: "index",
+				Fault: Fault{Kind: pick(r, []string{"", "devfull", "nodir"})}})
+		}
+		sites := map[string]uint32{"prod": 1, "close": 1, "write": 4, "eval.pre": 16, "eval.post": 16, "mc.sent": 1, "worker.start": 1, "go.start": 1}
+		for _, j := range grp {
+			for _, s := range sinkSites(j.Sink) {
+				sites[s] = 1
+			}
+		}
+		sc := &Scenario{Prop: "C12", Family: "fault", Seed: r.Uint64(), Groups: [][]Job{grp}, Sites: sites, Env: genEnv(r),
+			Sched: genSched(r, []string{"consumer", "renderer", "job:1", "job:2", "evalpost"})}
+		if r.Intn(3) == 0 { // and a render after the failure
+			sc.Groups = append(sc.Groups, []Job{{ID: 4, Kind: "mcu", Sink: "tri", Model: pick(r, model3Names), Cells: 6, EvalMod: 16}})
+		}
+		pl.scenarios = append(pl.scenarios, sc)
+	}
 	// part 2: goroutine census over render histories
 	histories := 6
 	reps := 4
@@ -214,6 +244,9 @@ func planC12(tier string, root *simcore.RNG) *plan {
 			return true, fmt.Sprintf("census/%d", o.sc.Seed)
 		}
 		j := &o.sc.Groups[0][0]
+		if len(o.sc.Groups[0]) > 1 {
+			return true, fmt.Sprintf("pair/%d", o.sc.Seed)
+		}
 		key := fmt.Sprintf("%s/%s/%s/%d/%s/%s/%d", j.Kind, j.Sink, j.Model, j.N, j.Fault.Kind, o.sc.Sched.Policy+o.sc.Sched.Victim, j.Fault.Budget)
 		fired := false
 		for _, jr := range o.res.Jobs {
